@@ -304,7 +304,20 @@ class CallMixin:
         if isinstance(recv, Rec):
             return True
         if isinstance(recv, SV) and isinstance(recv.ty, TNode):
-            return len(self.class_set(recv)) == 1 or self.single_class(recv)
+            if len(self.class_set(recv)) == 1:
+                return True
+            allc = self.ct.sort_classes[recv.ty.sort]
+            live = [ci for ci in allc if not z3.is_false(z3.simplify(self.ct.is_class(ci, recv.term)))]
+            if len(live) == 1:
+                self.restrict_class(recv, live)
+                return True
+            # decided by the path condition?
+            cis = self.class_set(recv)
+            feas = [ci for ci in cis if self.ex.feasible(self.ct.is_class(ci, recv.term))]
+            if len(feas) == 1:
+                self.restrict_class(recv, feas)
+                return True
+            return False
         return True
 
     def single_class(self, recv: SV):
@@ -336,14 +349,20 @@ class CallMixin:
         if gen:
             nfr.yielded = Box('list', items=[])
         self.depth += 1
+        self.qual_stack.append(qual)
         try:
             try:
                 self.exec_block(fnode.body, nfr)
                 ret = None
             except ReturnSig as r:
                 ret = r.value
+            except PyRaise as e:
+                if getattr(e.exc, 'origin', None) is None:
+                    e.exc.origin = list(self.qual_stack)
+                raise
         finally:
             self.depth -= 1
+            self.qual_stack.pop()
         if gen:
             return nfr.yielded
         return ret
